@@ -148,33 +148,40 @@ def c16_items(tier, rng):
 
 
 def c16_sources(valid, kmers):
-    body = [PRELUDE, "fn main() {"]
+    body = [PRELUDE, "fn main() {\n    std::panic::set_hook(Box::new(|_| {}));"]
     for macro, t in valid:
         ty = "Dna" if macro == "dna" else "Iupac"
         # runtime twin: the same text ('X' is the macro's spelling of the gap '-')
         rt = t.replace(b"X", b"-") if macro == "iupac" else t
         body.append("""    {
-        let l: &'static SeqSlice<%s> = %s!(%s);
-        let p: Seq<%s> = Seq::try_from(%s).unwrap();
-        let eq = l == p && p == l && l == &p[..] && *l == %s;
-        let h = feed_of(l) == feed_of(&p) && feed_of(l) == feed_of(&p[..]);
         let bytes: Vec<u64> = %s.bytes().map(|b| b as u64).collect();
-        println!("{}", json!({"op": "litprog", "macro": "%s", "bytes": bytes, "obs": {"v": view(l), "eqparse": eq, "hasheq": h}}));
-    }""" % (ty, macro, rust_str(t), ty, rust_str(rt), rust_str(rt), rust_str(t), macro))
+        // a panic while using the literal is an observation, not a failure of this program
+        let obs = catch_unwind(AssertUnwindSafe(|| {
+            let l: &'static SeqSlice<%s> = %s!(%s);
+            let p: Seq<%s> = Seq::try_from(%s).unwrap();
+            let eq = l == p && p == l && l == &p[..] && *l == %s;
+            let h = feed_of(l) == feed_of(&p) && feed_of(l) == feed_of(&p[..]);
+            json!({"v": view(l), "eqparse": eq, "hasheq": h})
+        })).unwrap_or(json!({"panic": true}));
+        println!("{}", json!({"op": "litprog", "macro": "%s", "bytes": bytes, "obs": obs}));
+    }""" % (rust_str(t), ty, macro, rust_str(t), ty, rust_str(rt), rust_str(rt), macro))
     for t, st in kmers:
         k = len(t)
         mac = "kmer!(%s)" % rust_str(t) if st == "usize" else "kmer!(%s, %s)" % (rust_str(t), st)
         nw = 2 if st == "u128" else 1
         body.append("""    {
-        let k = %s;
-        let p: Kmer<Dna, %d, %s> = %s.parse().unwrap();
-        let w = k.bs as u128;
-        let limbs: Vec<u64> = (0..%d).map(|i| ((w >> (16 * i)) & 0xffff) as u64).collect();
-        let eq = k == p && k.to_string() == %s && k == dna!(%s);
-        let h = feed_of(&k) == feed_of(&p) && feed_of(&k) == feed_of(dna!(%s));
         let bytes: Vec<u64> = %s.bytes().map(|b| b as u64).collect();
-        println!("{}", json!({"op": "kmerlit", "bytes": bytes, "st": "%s", "obs": {"kv": {"disp": k.to_string().into_bytes(), "limbs": limbs}, "eqparse": eq, "hasheq": h}}));
-    }""" % (mac, k, st, rust_str(t), 4 * nw, rust_str(t), rust_str(t), rust_str(t), rust_str(t), st))
+        let obs = catch_unwind(AssertUnwindSafe(|| {
+            let k = %s;
+            let p: Kmer<Dna, %d, %s> = %s.parse().unwrap();
+            let w = k.bs as u128;
+            let limbs: Vec<u64> = (0..%d).map(|i| ((w >> (16 * i)) & 0xffff) as u64).collect();
+            let eq = k == p && k.to_string() == %s && k == dna!(%s);
+            let h = feed_of(&k) == feed_of(&p) && feed_of(&k) == feed_of(dna!(%s));
+            json!({"kv": {"disp": k.to_string().into_bytes(), "limbs": limbs}, "eqparse": eq, "hasheq": h})
+        })).unwrap_or(json!({"panic": true}));
+        println!("{}", json!({"op": "kmerlit", "bytes": bytes, "st": "%s", "obs": obs}));
+    }""" % (rust_str(t), mac, k, st, rust_str(t), 4 * nw, rust_str(t), rust_str(t), rust_str(t), st))
     body.append("}")
     return "\n".join(body).replace("HASHREC", os.path.join(HARNESS, "src", "hashrec.rs"))
 
